@@ -1735,3 +1735,30 @@ Definition mw_decl : mcircuit :=
 Lemma decl_variants_not_merged :
   mwf mw_decl = true /\ mkeys true mw_decl = [0; 1; 0]%nat /\ canon mw_decl 1 = 1%nat.
 Proof. repeat (match goal with |- _ /\ _ => split end); vm_compute; reflexivity. Qed.
+
+(* ---- Euler trajectories: the explicit Euler iteration with Impl's vector field is the one with Spec's *)
+Theorem euler_impl_is_spec : forall vec c h n st, wf c = true -> euler_impl vec c h st n = Some (euler_spec c h st n).
+Proof.
+  intros vec c h n. induction n as [|n IH]; intros st W; cbn [euler_impl euler_spec]; [reflexivity|].
+  rewrite (impl_is_spec vec c st W). rewrite (IH _ W). reflexivity.
+Qed.
+
+(* ---- the before-fix records over the EXPLICIT switches of impl_gen (not over the constants fixed_D21 / fixed_D32,
+   which are true now): the full statement of the model with a switch off is false *)
+Definition full_statement_gen (f32 f21 : bool) : Prop := forall c st, wf c = true -> length st = length (cnodes c) ->
+  impl_gen input_of true f32 f21 true c st = Some (spec c st) /\ impl_gen input_of true f32 f21 false c st = Some (spec c st).
+
+Theorem full_refuted_before_D86 : ~ full_statement_gen true false.
+Proof.
+  intros F. destruct (F w_d21 [q 1; q 2]) as [H _]; [vm_compute; reflexivity|reflexivity|].
+  vm_compute in H. discriminate.
+Qed.
+
+Theorem full_refuted_before_D85 : ~ full_statement_gen false true.
+Proof.
+  intros F. destruct (F w_d32 st_d32) as [H _]; [vm_compute; reflexivity|vm_compute; reflexivity|].
+  vm_compute in H. discriminate.
+Qed.
+
+Theorem full_gen_when_both_on : full_statement_gen true true.
+Proof. intros c st W _. split; apply full_of_repaired_model; exact W. Qed.
